@@ -3,6 +3,8 @@ import Libp2pModel.Proofs.C15Uvi
 import Libp2pModel.Proofs.C15Frame
 import Libp2pModel.Proofs.C15Msg
 import Libp2pModel.Proofs.C15Dec
+import Libp2pModel.Proofs.C15Auto
+import Libp2pModel.Proofs.C15Dial
 /-!
 # C15 — property theorems
 
@@ -307,6 +309,49 @@ theorem spec_rt_model (m : Msg) :
 theorem spec_dec_model (bs : Bytes) : specDec (decodeMsg bs) = "ok" := by
   simp [specDec, not_panic, not_malformed]
 
+/-! ## the real futures on hostile input: the Spec accepts the model
+
+`listenRun` / `dialRun` are `listener_select_proto` / `dialer_select_proto` (V1 and V1Lazy, then
+reading the `Negotiated` stream) driven over an arbitrary byte string followed by EOF. -/
+
+/-- for every list of names and EVERY input: no panic, a selected protocol is one of the
+listener's own valid names, an oversized first frame gives an error, and everything the listener
+wrote is a sequence of well-formed frames with 1–2 byte length prefixes -/
+theorem spec_listen (names : List Bytes) (input : Bytes) :
+    specListenRes names input (listenRun names input).1 (listenRun names input).2.1 = "ok" :=
+  spec_listen_model names input
+
+/-- the same for the dialer, both versions -/
+theorem spec_dial (lazy : Bool) (names : List Bytes) (input : Bytes) :
+    specDialRes names input (dialRun lazy names input).1 (dialRun lazy names input).2.1
+      (dialRun lazy names input).2.2 = "ok" :=
+  spec_dial_model lazy names input
+
+/-- the listener never panics and never selects a protocol it was not given, whatever it reads -/
+theorem listen_safe (names : List Bytes) (input : Bytes) :
+    (∀ w, (listenRun names input).1 ≠ .panic w) ∧
+    (∀ p, (listenRun names input).1 = .ok p → names.contains p = true ∧ nameOk p = true) := by
+  have h := spec_listen_model names input
+  unfold specListenRes at h
+  refine ⟨?_, ?_⟩
+  · intro w hw
+    rw [hw] at h
+    simp [nresPanic] at h
+  · intro p hp
+    rw [hp] at h
+    simp only [nresPanic, Bool.false_eq_true, ↓reduceIte] at h
+    by_cases hc : (names.contains p && nameOk p) = true
+    · simpa using hc
+    · exfalso
+      have hc' : ¬ p ∈ names ∨ nameOk p = false := by
+        simp at hc
+        by_cases hm : p ∈ names
+        · right; exact hc hm
+        · left; exact hm
+      simp at h
+      rw [if_pos hc'] at h
+      exact absurd h (by decide)
+
 /-! ## non-vacuity -/
 example : valid (.proto [47, 97]) = true := by decide
 example : valid (.protos [[47, 97], [47, 98, 10, 99]]) = true := by decide
@@ -333,3 +378,6 @@ end C15
 #print axioms C15.frames_split_independent
 #print axioms C15.spec_rt_model
 #print axioms C15.spec_dec_model
+#print axioms C15.spec_listen
+#print axioms C15.spec_dial
+#print axioms C15.listen_safe
